@@ -90,6 +90,7 @@ type FnCtx struct {
 	notes        map[string]bool
 	ghost        map[string]*Cell
 	lemmaName    string
+	onceSeen     map[T]bool
 	hypMode      bool // contract expressions are being evaluated as assumptions
 	rootFrame    *Frame
 	rootRets     []retPoint
@@ -134,6 +135,21 @@ func (fx *FnCtx) assume(guard, fact T) {
 		return
 	}
 	fx.assumes = append(fx.assumes, f)
+}
+
+// assumeOnce adds an unguarded fact unless the same text is already there.
+func (fx *FnCtx) assumeOnce(t T) {
+	if t == "true" {
+		return
+	}
+	if fx.onceSeen == nil {
+		fx.onceSeen = map[T]bool{}
+	}
+	if fx.onceSeen[t] {
+		return
+	}
+	fx.onceSeen[t] = true
+	fx.assumes = append(fx.assumes, t)
 }
 
 func (fx *FnCtx) define(hint, sort string, t T) T {
